@@ -52,9 +52,11 @@ void enum_cleanup()
             }
             else
             {
-               if (prev->Is(CT_BRACE_OPEN))                // Issue #2902
+               if (  prev->Is(CT_BRACE_OPEN)               // Issue #2902
+                  || prev->Is(CT_IGNORED))
                {
-                  // nothing between CT_BRACE_OPEN and CT_BRACE_CLOSE
+                  // nothing between CT_BRACE_OPEN and CT_BRACE_CLOSE,
+                  // or the text of a disabled region: it stays as it is
                }
                else
                {
